@@ -18,8 +18,11 @@ import math
 import warnings
 from io import BytesIO
 
+from typing import Protocol
+
 import httpx2
 import pyarrow as pa
+from vgi_rpc.rpc import ProducerState, Stream
 
 from drivers._fault_util import model_check, strset, validate_traces
 from vf.core import Ctx
@@ -51,7 +54,7 @@ CLASS_CODES = {
     "o5xx": [c for c in range(500, 600) if c not in (500, 502, 503, 504)],
 }
 CODE_CLASS = {c: k for k, v in CLASS_CODES.items() for c in v}
-RSETS = {"default": ["s429", "s502", "s503", "s504"], "none": [], "custom": ["s500", "s429"],
+RSETS = {"default": ["s429", "s502", "s503", "s504"], "none": [], "off": [], "custom": ["s500", "s429"],
          "wide": ["s413", "s429", "s500", "s502", "s503", "s504", "o4xx", "o5xx", "o3xx"]}
 BACKOFF = {"b2m4": (2, 4), "b0m4": (0, 4), "b2m32": (2, 32), "b2m0": (2, 0), "b8m4": (8, 4)}
 
@@ -94,7 +97,17 @@ EXC = {
               lambda: httpx2.RemoteProtocolError("<ConnectionTerminated error_code:0, last_stream_id:1, "
                                                  "additional_data:None>"),
               lambda: httpx2.LocalProtocolError("Too much data for declared Content-Length")],
+    # errors on an established connection: neither connect error, timeout nor disconnect-before-response
+    "neterr": [lambda: httpx2.ReadError("[Errno 104] Connection reset by peer"),
+               lambda: httpx2.WriteError("[Errno 32] Broken pipe"), lambda: httpx2.CloseError("close failed")],
 }
+
+
+class CallSvc(Protocol):
+    """Protocol behind the "call" level: a unary method and a producer stream."""
+
+    def add(self, x: int) -> int: ...
+    def feed(self, n: int) -> Stream[ProducerState]: ...
 
 
 def _classify_exc(e: BaseException) -> str:
@@ -106,6 +119,8 @@ def _classify_exc(e: BaseException) -> str:
         return "connect"
     if isinstance(e, httpx2.ProtocolError):
         return "proto"
+    if isinstance(e, (httpx2.ReadError, httpx2.WriteError, httpx2.CloseError)):
+        return "neterr"
     return "other:" + type(e).__name__
 
 
@@ -146,9 +161,11 @@ class _Script:
         self.pos = 0
         self.overrun = 0
         self.hdr_style = 0
+        self.op = "send"
 
     def load(self, items: list[dict], hdr_style: int = 0) -> None:
         self.items, self.log, self.pos, self.overrun, self.hdr_style = items, [], 0, 0, hdr_style
+        self.op = "send"
 
     def next(self) -> dict:
         if self.pos >= len(self.items):
@@ -158,7 +175,7 @@ class _Script:
         else:
             it = self.items[self.pos]
         self.pos += 1
-        self.log.append({"e": "send", "o": it["o"]})
+        self.log.append({"e": self.op, "o": it["o"]})
         return it
 
     def headers(self, it: dict) -> dict:
@@ -183,6 +200,8 @@ def _mk_items(outs: list[dict], ctr: dict, n: int) -> list[dict]:
 def _retry_config(cfg: dict):
     from vgi_rpc.http._retry import HttpRetryConfig
 
+    if cfg["rset"] == "off":
+        return None
     base, bmax = BACKOFF[cfg["bo"]]
     codes = frozenset(c for cl in RSETS[cfg["rset"]] for c in CLASS_CODES[cl])
     return HttpRetryConfig(max_retries=cfg["mr"], backoff_base=base / U, backoff_max=bmax / U,
@@ -199,7 +218,9 @@ class _World:
 
         self.script = _Script()
         self.ext_plan = "ok"
+        self.ext_plans: list[str] = []
         self.ext_logged = False
+        self.ep = "-"
         self.other: list[str] = []
         self.client = httpx2.Client(transport=httpx2.MockTransport(self._handle))
         self.schema = pa.schema([pa.field("v", pa.int64())])
@@ -216,16 +237,33 @@ class _World:
         with pa.ipc.new_stream(buf, _UPLOAD_URL_SCHEMA) as w:
             w.write_batch(ub)
         self.vend_body = buf.getvalue()
+        rs = pa.schema([pa.field("result", pa.int64())])
+        buf = BytesIO()
+        with pa.ipc.new_stream(buf, rs) as w:
+            w.write_batch(pa.RecordBatch.from_pydict({"result": [3]}, schema=rs))
+        self.unary_body = buf.getvalue()
+        buf = BytesIO()
+        with pa.ipc.new_stream(buf, self.schema) as w:
+            w.write_batch(b)
+        self.data_body = buf.getvalue()
+
+    def _ok_body(self) -> bytes:
+        return {"unary": self.unary_body, "continuation": self.data_body, "upload_urls": self.vend_body}.get(
+            self.ep, self.ok_body)
 
     # -- transport-level handler (level "httpx" and the stream flows)
     def _ext(self, x: str) -> None:
         if not self.ext_logged:
             self.ext_logged = True
             self.script.log.append({"e": "ext", "x": x})
+            if self.ext_plans:      # the next externalisation phase of this session follows the next plan
+                self.ext_plan = self.ext_plans.pop(0)
 
     def _handle(self, req: httpx2.Request) -> httpx2.Response:
         path = req.url.path
-        if req.method == "OPTIONS" and path.endswith("/health") and self.ext_plan != "-":
+        if self.ext_plan == "-":
+            pass            # no externalisation flow in this run: every request is answered from the script
+        elif req.method == "OPTIONS" and path.endswith("/health"):
             if self.ext_plan == "caps_err":
                 self._ext("caps_err")
                 raise httpx2.ReadError("probe failed")
@@ -233,23 +271,24 @@ class _World:
                 self._ext("no_support")
                 return httpx2.Response(200, headers={"VGI-Max-Request-Bytes": "10"})
             return httpx2.Response(200, headers={"VGI-Upload-URL-Support": "true", "VGI-Max-Request-Bytes": "10"})
-        if req.method == "POST" and path.endswith("/__upload_url__/init"):
+        elif req.method == "POST" and path.endswith("/__upload_url__/init"):
             if self.ext_plan == "vend_err":  # 200 with a non-IPC body: never retried whatever the retryable set
                 self._ext("vend_err")
                 return httpx2.Response(200, content=b"nope")
             return httpx2.Response(200, content=self.vend_body)
-        if req.method == "PUT":
+        elif req.method == "PUT":
             if self.ext_plan == "put_err":
                 self._ext("put_err")
                 return httpx2.Response(500, content=b"nope")
             self._ext("ok")
             return httpx2.Response(200)
         if req.method in ("POST", "OPTIONS"):
+            self.ext_logged = False     # a request of the operation itself: a later externalisation is a new phase
             it = self.script.next()
             if it["o"]["k"] != "status":
                 opts = EXC[it["o"]["k"]]
                 raise opts[it["exc"] % len(opts)]()
-            body = self.ok_body if it["o"]["s"] == "ok2xx" else b"not arrow"
+            body = self._ok_body() if it["o"]["s"] == "ok2xx" else b"not arrow"
             return httpx2.Response(it["code"], headers=self.script.headers(it), content=body)
         self.other.append(f"{req.method} {req.url}")
         return httpx2.Response(599)
@@ -314,41 +353,121 @@ def _run_retry(world: _World, cfg: dict, items: list[dict], level: str, fracs: l
     return list(log), {"overrun": world.script.overrun, "consumed": world.script.pos}
 
 
-def _run_stream(world: _World, cfg: dict, items: list[dict], ext_plan: str, with_retry_cfg: bool) -> tuple[list[dict], dict]:
-    from vgi_rpc.http._client import HttpStreamSession
+def _run_stream(world: _World, cfg: dict, items: list[dict], ext_plans: list[str], with_retry_cfg: bool) -> tuple[list[dict], dict]:
+    """exchange() / cancel() and their sequences on one real HttpStreamSession."""
+    from vgi_rpc.http._client import HttpServerCapabilities, HttpStreamSession
     from vgi_rpc.rpc import AnnotatedBatch, RpcError
 
-    world.ext_plan = ext_plan
+    plans = list(ext_plans) or ["ok"]
+    world.ext_plan, world.ext_plans = plans[0], plans[1:]
     world.ext_logged = False
     world.other = []
+    world.ep = "-"
     world.script.load(items, 0)
     log = world.script.log
+    mode = cfg["mode"]
     sess = HttpStreamSession(world.client, PREFIX, "m", b"tok1", world.schema, call_state_bytes=b"call",
                              retry_config=_retry_config(cfg) if with_retry_cfg else None)
-    try:
-        if cfg["mode"] == "exchange":
+    if mode == "warm":      # capabilities learnt earlier: this body is known to be too large for an inline POST
+        sess._capabilities = HttpServerCapabilities(max_request_bytes=10, upload_url_support=True)
+
+    def classify(exc: BaseException) -> dict:
+        after_ext = bool(log) and log[-1].get("e") == "ext" and log[-1]["x"] != "ok"
+        if isinstance(exc, httpx2.HTTPError):
+            return {"k": "raise", "v": "ext" if after_ext else _classify_exc(exc)}
+        if isinstance(exc, RpcError):
+            return {"k": "raise", "v": "ext" if after_ext else "rpc"}
+        return {"k": "raise", "v": "other:" + type(exc).__name__}
+
+    if mode in ("cancel", "cancel2"):
+        try:
+            sess.cancel()
+            if mode == "cancel2":
+                sess.cancel()
+            end = {"k": "resp", "v": "swallowed"}
+        except Exception as e:  # noqa: BLE001
+            end = classify(e)
+    else:
+        try:
             out = sess.exchange(AnnotatedBatch(batch=world.batch))
             end = {"k": "resp", "v": "ok2xx"} if out.batch.num_rows == 1 else {"k": "resp", "v": "odd"}
-        else:
-            sess.cancel()
-            end = {"k": "resp", "v": "swallowed"}
-    except httpx2.HTTPError as e:
-        end = {"k": "raise", "v": _classify_exc(e)}
-        if world.ext_logged and log and log[-1].get("e") == "ext":
-            end = {"k": "raise", "v": "ext"}
-    except RpcError:
-        end = {"k": "raise", "v": "ext" if (log and log[-1].get("e") == "ext" and log[-1]["x"] != "ok") else "rpc"}
-    except Exception as e:  # noqa: BLE001
-        end = {"k": "raise", "v": "other:" + type(e).__name__}
+        except Exception as e:  # noqa: BLE001 -- classified; TLC rejects what the model cannot explain
+            end = classify(e)
+        if mode == "xcancel":
+            world.script.op = "csend"
+            try:
+                sess.cancel()
+            except Exception as e:  # noqa: BLE001
+                end = {"k": "raise", "v": "cancel-raised:" + type(e).__name__}
     log.append({"e": "end", "r": end})
     return list(log), {"overrun": world.script.overrun, "consumed": world.script.pos, "other": list(world.other)}
+
+
+CALL_SLEEPERS = ("_post_with_retry", "_options_with_retry")
+
+
+def _run_call(world: _World, cfg: dict, items: list[dict], fracs: list[float], uni: _Uniform, hdr_style: int) -> tuple[list[dict], dict]:
+    """The retry loop as reached through a public entry point (cfg.ep), sleeps observed through the wrappers'
+    keyword default (the entry points do not expose `_sleep`)."""
+    from vgi_rpc.http import _client as hc
+    from vgi_rpc.http import _retry
+    from vgi_rpc.rpc import RpcError
+
+    rc = _retry_config(cfg)
+    world.ext_plan, world.ext_plans, world.ep = "-", [], cfg["ep"]
+    world.script.load(items, hdr_style)
+    log = world.script.log
+    nsleep = [0]
+
+    def sleep(d: float) -> None:
+        log.append(_units(d))
+        nsleep[0] += 1
+        uni.frac = fracs[nsleep[0] % len(fracs)]
+
+    uni.frac = fracs[0]
+    saved = {n: dict(getattr(_retry, n).__kwdefaults__) for n in CALL_SLEEPERS}
+    for n in CALL_SLEEPERS:
+        getattr(_retry, n).__kwdefaults__["_sleep"] = sleep
+    try:
+        ep = cfg["ep"]
+        if ep == "capabilities":
+            hc.http_capabilities(client=world.client, prefix=PREFIX, retry=rc)
+        elif ep == "upload_urls":
+            hc.request_upload_urls(client=world.client, prefix=PREFIX, retry=rc)
+        elif ep == "continuation":
+            sess = hc.HttpStreamSession(world.client, PREFIX, "feed", b"tok1", world.schema, call_state_bytes=b"call",
+                                        retry_config=rc)
+            list(sess)
+        else:
+            with hc.http_connect(CallSvc, client=world.client, prefix=PREFIX, retry=rc, compression_level=None) as p:
+                if ep == "unary":
+                    p.add(x=1)
+                else:
+                    p.feed(n=1)
+        last = next((e["o"] for e in reversed(log) if e["e"] == "send"), None)
+        end = {"k": "resp", "v": last["s"] if last else "-"}
+    except _retry.HttpTransientError as e:
+        end = {"k": "transient", "v": CODE_CLASS.get(e.status_code, f"code{e.status_code}")}
+    except httpx2.HTTPError as e:
+        end = {"k": "raise", "v": _classify_exc(e)}
+    except RpcError:
+        end = {"k": "raise", "v": "rpc"}
+    except Exception as e:  # noqa: BLE001
+        end = {"k": "raise", "v": "other:" + type(e).__name__}
+    finally:
+        for n in CALL_SLEEPERS:
+            getattr(_retry, n).__kwdefaults__.clear()
+            getattr(_retry, n).__kwdefaults__.update(saved[n])
+    log.append({"e": "end", "r": end})
+    return list(log), {"overrun": world.script.overrun, "consumed": world.script.pos}
 
 
 # ------------------------------------------------------------------------------------------------ TLC side
 INVS = ["InvSendsBounded", "InvResendOnlyAfterRetryable", "InvSleepWithinBackoffMax", "InvExchangeSentOnce",
         "InvCancelSentOnce", "InvSane"]
-QUICK_SLICES = ("main", "statuses", "stream")
-THOROUGH_SLICES = ("main", "ra_depth", "status_breadth", "backoff_breadth", "statuses", "stream_full")
+QUICK_SLICES = ("main", "statuses", "stream", "deep", "calls", "streamops")
+THOROUGH_SLICES = ("main", "ra_depth", "status_breadth", "backoff_breadth", "statuses", "stream_full", "deep", "calls",
+                   "streamops")
 
 
 def _consts(slices=("main",), pts: str = "hi") -> dict:
@@ -370,7 +489,7 @@ TAIL_POOL = [_o("s503"), _o("s429", "secs", 2), _o("s502"), _o("s504", "inf"), _
 
 def _tail(cfg: dict, outs: list[dict], rng) -> list[dict]:
     """Pad the consumed fault sequence to max_retries+2 (retry) / 3 (stream) faults."""
-    want = (cfg["mr"] + 2) if cfg["mode"] == "retry" else 3
+    want = (cfg["mr"] + 2) if cfg["mode"] in ("retry", "call") else 4
     transient = [o for o in TAIL_POOL if (o["k"] == "status" and o["s"] in RSETS[cfg["rset"]])
                  or o["k"] in ("connect", "timeout", "disconnect")]
     tail = []
@@ -380,9 +499,9 @@ def _tail(cfg: dict, outs: list[dict], rng) -> list[dict]:
 
 
 def _sig(cfg: dict, log: list[dict], level: str) -> dict:
-    sends = [e["o"] for e in log if e["e"] == "send"]
+    sends = [e["o"] for e in log if e["e"] in ("send", "csend")]
     last = sends[-1] if sends else {"k": "-", "s": "-", "ra": {"k": "-"}}
-    return {"mode": cfg["mode"], "level": level, "nsends": len(sends), "mr": cfg["mr"],
+    return {"mode": cfg["mode"], "ep": cfg.get("ep", "-"), "level": level, "nsends": len(sends), "mr": cfg["mr"],
             "last_kind": last["k"], "last_status": last["s"],
             "ra_kinds": sorted({o["ra"]["k"] for o in sends if o["k"] == "status"})}
 
@@ -444,8 +563,15 @@ def run(ctx: Ctx) -> None:
                         items = _mk_items(outs + _tail(cfg, outs, ctx.rng), ctr, bi + v)
                         log, info = _run_retry(world, cfg, items, level, list(fr), uni, bi + v)
                         _record(ctx, traces, meta, index, cfg, log, level, items, list(fr), info, outs, codes_seen)
+                elif cfg["mode"] == "call":
+                    fr = [(0.0,), (1.0,), (ctx.rng.random(), ctx.rng.random())][bi % 3]
+                    items = _mk_items(outs + _tail(cfg, outs, ctx.rng), ctr, bi)
+                    log, info = _run_call(world, cfg, items, list(fr), uni, bi)
+                    _record(ctx, traces, meta, index, cfg, log, "entry:" + cfg["ep"], items, list(fr), info, outs,
+                            codes_seen)
                 else:
-                    ext = next((e["x"] for e in mlog if e["e"] == "ext"), "ok")
+                    outs = [e["o"] for e in mlog if e["e"] in ("send", "csend")]
+                    ext = [e["x"] for e in mlog if e["e"] == "ext"]
                     for with_rc in ((True, False) if (bi % 4 == 0 or not quick) else (True,)):
                         items = _mk_items(outs + _tail(cfg, outs, ctx.rng), ctr, bi)
                         log, info = _run_stream(world, cfg, items, ext, with_rc)
@@ -526,8 +652,10 @@ def _replay(ctx: Ctx, wd) -> None:
     try:
         if cfg["mode"] == "retry":
             log, info = _run_retry(world, cfg, items, m["level"], m["fracs"] or [0.5], uni, 0)
+        elif cfg["mode"] == "call":
+            log, info = _run_call(world, cfg, items, m["fracs"] or [0.5], uni, 0)
         else:
-            ext = next((e["x"] for e in d["real_log"] if e["e"] == "ext"), "ok")
+            ext = [e["x"] for e in d["real_log"] if e["e"] == "ext"]
             log, info = _run_stream(world, cfg, items, ext, m["level"] == "session")
     finally:
         _retry.random = saved
